@@ -131,13 +131,14 @@ def run(ctx):
                                     w.loc(arm["l"]), detail=pathx.show_events(p.ev)[:400],
                                     fail="the graceful quit path no longer stops every job and waits for all job tasks before leaving the loop")
         # the per-job task: stop_with_signal(signal, grace) then delete().await
-        tasks = [c for c in facts.descendants(w) if c.kind == "coroutine" and any(t.callee.is_("Job::stop_with_signal") for _, t in c.calls())]
+        # the future spawned per job: an `async move` block of the worker or a named `async fn` it calls
+        tasks = [c for c in facts.callable_bodies(w) if c.kind == "coroutine" and any(t.callee.is_("Job::stop_with_signal") for _, t in c.calls())]
         t = ctx.anchor_one("R08.3", "per-job shutdown task", tasks)
         en = pathx.Enum(interesting=interesting)
         for p in en.paths(thir.root(t)):
             seq = [(strip_generics(e[1]).split("::")[-1], [pathx.desc(a) for a in e[2]["a"]]) for e in p.ev if e[0] == "call"]
             aw = [e for e in p.ev if e[0] == "await"]
-            ok = [s[0] for s in seq][:2] == ["stop_with_signal", "delete"] and seq[0][1][1:] == ["^signal", "^grace"] and len(aw) == 1 and "Job::delete" in aw[0][1]
+            ok = [s[0] for s in seq][:2] == ["stop_with_signal", "delete"] and [a_.replace("^", "") for a_ in seq[0][1][1:]] == ["signal", "grace"] and len(aw) == 1 and "Job::delete" in aw[0][1]
             ctx.require(ok, "R08.3", "per-job-stop-then-delete", "each job is sent stop_with_signal(signal, grace) and then an awaited delete()", t.loc(t.line),
                         detail=str(seq), fail="the per-job shutdown no longer is stop_with_signal(signal, grace) followed by an awaited delete()")
         # LateJoinSet drop aborts
